@@ -133,8 +133,8 @@ func checkSelect(c *core.Ctx, fn *ssa.Function) {
 		if initf := p.Func("init"); initf != nil {
 			for _, s := range core.Sites(initf) {
 				if s.Callee == "helpers.BipToPip" {
-					if inner, ok := core.Unwrap(s.Arg(0)).(*ssa.Call); ok && core.CalleeName(&inner.Call) == "math/big.NewInt" {
-						if k, ok := core.ConstInt(inner.Call.Args[0]); ok && k == 1000 {
+					if inner, ok := core.Unwrap(s.Arg(0)).(*ssa.Call); ok && core.CalleeName(core.NormCall(&inner.Call)) == "math/big.NewInt" {
+						if k, ok := core.ConstInt(core.NormCall(&inner.Call).Args[0]); ok && k == 1000 {
 							// stored to the global
 							if v := s.Value(); v != nil {
 								for _, r := range *v.Referrers() {
@@ -191,7 +191,7 @@ func checkUpdateValidators(c *core.Ctx) {
 	// count argument
 	cnt := false
 	for _, o := range core.Origins(gnc.Arg(0)) {
-		if call, ok := o.(*ssa.Call); ok && strings.HasSuffix(core.CalleeName(&call.Call), ".GetValidatorsCountForBlock") {
+		if call, ok := o.(*ssa.Call); ok && strings.HasSuffix(core.CalleeName(core.NormCall(&call.Call)), ".GetValidatorsCountForBlock") {
 			cnt = true
 		}
 	}
@@ -204,10 +204,10 @@ func checkUpdateValidators(c *core.Ctx) {
 		if k, ok := core.ConstInt(o); ok && k == 1 {
 			one = true
 		}
-		if call, ok := o.(*ssa.Call); ok && core.CalleeName(&call.Call) == "(*math/big.Int).Int64" {
+		if call, ok := o.(*ssa.Call); ok && core.CalleeName(core.NormCall(&call.Call)) == "(*math/big.Int).Int64" {
 			if core.DependsOn(call, func(v ssa.Value) bool {
 				cc, ok := v.(*ssa.Call)
-				return ok && core.CalleeName(&cc.Call) == "(*math/big.Int).Div"
+				return ok && core.CalleeName(core.NormCall(&cc.Call)) == "(*math/big.Int).Div"
 			}) && core.DependsOn(call, func(v ssa.Value) bool {
 				cc, ok := v.(*ssa.Call)
 				return ok && methodNameOfCall(cc) == "GetTotalStake"
@@ -432,7 +432,7 @@ func checkKick(c *core.Ctx, rec, kick *ssa.Function) {
 			if (cf.Op == token.EQL && cf.Const == 1 || cf.Op == token.GTR && cf.Const == 0) && strings.HasSuffix(cf.ArgPath(0), ".BipValue") {
 				// the kicked object is the update whose BipValue is compared
 				if obj := fieldObj(s.Arg(1), "Value"); obj != nil {
-					if bobj := fieldObj(cf.Call.Call.Args[1], "BipValue"); bobj == obj {
+					if bobj := fieldObj(core.NormCall(&cf.Call.Call).Args[1], "BipValue"); bobj == obj {
 						pol = true
 					}
 				}
